@@ -133,6 +133,10 @@ func vCat(parts ...[]byte) []byte {
 // 0..maxData, arbitrary content) hashes to it.
 func vValidSection(tag string, maxData int) vSection {
 	c := vCidT(tag)
+	if c.Prefix().MhType == 0 {
+		// identity: the data is the digest
+		return vSection{c: c, data: vIdentityPayload(c)}
+	}
 	data := vBytes(tag+".data", vChoose(tag+".len", maxData+1))
 	vAssume(vValidBlock(c, data))
 	return vSection{c: c, data: data}
